@@ -200,3 +200,29 @@ func ZZ_C13_SequentialShared() {
 	zz.Assert(zzIntOf(w.inst.ParameterData(w.idA)) == a, "parameter read returns the current value")
 	zz.Reach("joined")
 }
+
+// ZZ_C13_TwoReaders: two clients generate the two artifacts at the same time, right after a completed update, so
+// the intermediate node both producers share is outdated when they start. Whatever the interleaving, each artifact
+// shows the updated state, the shared node is evaluated once for that state, and no interleaving races on its cache.
+func ZZ_C13_TwoReaders() {
+	w := zzBuild()
+	a1 := zz.Int("a1", -50, 50)
+	ok, err := w.inst.UpdateParameter(w.idA, zz.JSONMsg(a1))
+	zz.Assert(ok && err == nil, "update accepted")
+	zz.Reach("built")
+	var wg gsync.WaitGroup
+	var r1, r2 zzArt
+	wg.Add(2)
+	go func() {
+		defer wg.Done()
+		r1 = zzArtOf(w.inst.Artifact("out"))
+	}()
+	go func() {
+		defer wg.Done()
+		r2 = zzArtOf(w.inst.Artifact("out2"))
+	}()
+	wg.Wait()
+	zz.Reach("joined")
+	zzOneState(r1, a1, a1, w.b0, w.b0, "first concurrent reader")
+	zz.Assert(r2.viaMid == 1-a1, "second concurrent reader sees the completed update through the shared node")
+}
